@@ -1,5 +1,52 @@
-(* placeholder until AutodiffProofs.v lands: statements proved so far *)
-From Optyx Require Import Syntax Machine Autodiff MachineProofs.
-Theorem C02_iter_machine : forall A leaf fbin funa e, fold_iter A leaf fbin funa e = Some (fold_rec A leaf fbin funa e).
+(* C02 — the symbolic gradient is the true partial derivative.
+   Only statements; proofs are `exact <lemma>` from AutodiffProofs.v / MachineProofs.v. *)
+From Coquelicot Require Import Coquelicot.
+From Coq Require Import Reals QArith String List.
+From Optyx Require Import Syntax SemR Machine Autodiff MachineProofs AutodiffLemmas AutodiffProofs.
+From Optyx.Gen Require Import GenTables.
+Close Scope Q_scope.
+
+(* at every regular point the derivative tree evaluates to the true partial
+   derivative (Coquelicot's is_derive), for every operator, elementary function,
+   vector and matrix reduction and all their compositions *)
+Theorem C02_gradient_correct : forall ln2c ln10c e v rho penv,
+  wf e = true -> exact_ops e = true -> dot_same_ok e = true -> regular rho penv e ->
+  is_derive (fun t : R => evalR (upd rho v t) penv e) (rho v)
+            (evalR rho penv (grad ln2c ln10c v e)).
+Proof. exact grad_correct. Qed.
+Print Assumptions C02_gradient_correct.
+
+(* identically zero - literally the constant 0 - for variables that do not occur *)
+Theorem C02_absent_variable : forall ln2c ln10c e v,
+  mentions v e = false -> grad ln2c ln10c v e = Const 0%Q.
+Proof. exact grad_absent. Qed.
+Print Assumptions C02_absent_variable.
+
+(* derivative trees stay inside the fragment, so they can be differentiated again *)
+Theorem C02_closed : forall ln2c ln10c v e,
+  (wf e = true -> wf (grad ln2c ln10c v e) = true) /\
+  (exact_ops e = true -> exact_ops (grad ln2c ln10c v e) = true) /\
+  (dot_same_ok e = true -> dot_same_ok (grad ln2c ln10c v e) = true).
+Proof. intros; repeat split; [apply grad_wf | apply grad_exact_ops | apply grad_dot_same_ok]. Qed.
+Print Assumptions C02_closed.
+
+(* the algebraic simplifications around 0 and 1 preserve the value *)
+Theorem C02_simplifiers : forall rho penv a b,
+  evalR rho penv (s_add a b) = (evalR rho penv a + evalR rho penv b)%R /\
+  evalR rho penv (s_sub a b) = (evalR rho penv a - evalR rho penv b)%R /\
+  evalR rho penv (s_mul a b) = (evalR rho penv a * evalR rho penv b)%R /\
+  evalR rho penv (s_div a b) = (evalR rho penv a / evalR rho penv b)%R /\
+  evalR rho penv (s_neg a) = (- evalR rho penv a)%R.
+Proof. intros; repeat split; [apply s_add_ev | apply s_sub_ev | apply s_mul_ev | apply s_div_ev | apply s_neg_ev]. Qed.
+Print Assumptions C02_simplifiers.
+
+(* the explicit-stack traversal returns the same tree as the recursive one *)
+Theorem C02_iter_machine : forall A leaf fbin funa e,
+  fold_iter A leaf fbin funa e = Some (fold_rec A leaf fbin funa e).
 Proof. exact fold_iter_correct. Qed.
 Print Assumptions C02_iter_machine.
+
+(* non-vacuity: sin(x) * y^2 at (1, 3) meets every hypothesis *)
+Example C02_example : is_derive (fun t : R => (sin 1 * powQ t 2)%R) 3 (sin 1 * (Q2R 2 * 3))%R.
+Proof. exact ex1_derive_y. Qed.
+Print Assumptions C02_example.
